@@ -91,10 +91,30 @@ class ExecR(Exec05):
             return
         return super()._block(st, bb, depth)
 
+    def stmt(self, st, line):
+        m = re.fullmatch(r"\((_\d+)\.(\d+): .+\) = ((?:copy|move|const) [^=]+);?", line.strip())
+        if m and m.group(1) in st.env and st.env[m.group(1)].kind == "agg":
+            old = st.env[m.group(1)]
+            fields = list(old.fields)
+            fields[int(m.group(2))] = self.operand(st, m.group(3).rstrip(";"))
+            st.env[m.group(1)] = vagg(fields, name=old.name)
+            return
+        return super().stmt(st, line)
+
     def write_place(self, st, s, val):
         m = re.fullmatch(r"\(\*(_\d+)\)", s.strip())
         if m and st.env.get(m.group(1)) is not None and st.env[m.group(1)].kind == "opaque" and st.env[m.group(1)].text.startswith("URLSLOT"):
             st.notes.append(("call", "set_url", tok(val)))
+            return
+        try:
+            base, proj = self.parse_place(s)
+        except Unsupported:
+            base, proj = None, None
+        if base and len(proj) == 1 and proj[0][0] == "field" and base in st.env and st.env[base].kind == "agg":
+            old = st.env[base]
+            fields = list(old.fields)
+            fields[proj[0][1]] = val
+            st.env[base] = vagg(fields, name=old.name)
             return
         super().write_place(st, s, val)
 
@@ -180,6 +200,17 @@ class ContractsR:
             return [("true", vopaque("FINALFUT"))]
         if re.search(r"as Into<HttpError>>::into$", c):
             return [("true", vopaque("into(" + tok(args[0]) + ")"))]
+        if re.search(r"slice::<impl \[Arc<dyn Middleware>\]>::split_first$", c):
+            note("split_first", tok(args[0]))
+            return [("(= nonempty 1)", venum("Option", "Some", [vagg([vopaque("FIRST"), vopaque("REST")])])), ("(= nonempty 0)", venum("Option", "None", []))]
+        if re.search(r"^<Arc<dyn Middleware> as Deref>::deref$", c):
+            return [("true", vopaque("deref(" + tok(args[0]) + ")"))]
+        if re.search(r"^<dyn Middleware as Middleware>::handle::<", c):
+            note("handle", tok(args[0]), tok(args[1]), tok(args[2]), tok(args[3]))
+            return [("true", vopaque("HANDLEFUT"))]
+        if re.search(r"as Fn<.request::Request, Client.>>::call$", c):
+            note("endpoint", tok(args[0]), tok(args[1]))
+            return [("true", vopaque("ENDPOINTFUT"))]
         if re.search(r"result::unwrap_failed|option::expect_failed|option::unwrap_failed|panicking::panic", c):
             return [("true", Panic(args[0].text.strip('"') if args and args[0].kind == "opaque" else "panic"))]
         note("other", c)
@@ -261,7 +292,7 @@ def run_property(prop, cfg, tier, known, only=None):
     for s in (z3, cv):
         s.send("(set-option :produce-models true)")
         s.send("(set-logic ALL)")
-        for v, hi in (("count", 255), ("attempts", 255), ("probe", 2), ("final", 2), ("hasloc", 1), ("parse", 2), ("join", 1)):
+        for v, hi in (("count", 255), ("attempts", 255), ("probe", 2), ("final", 2), ("hasloc", 1), ("parse", 2), ("join", 1), ("nonempty", 1)):
             s.send(f"(declare-const {v} Int)")
             s.send(f"(assert (and (>= {v} 0) (<= {v} {hi})))")
         s.send("(declare-const st Int)")
@@ -404,6 +435,35 @@ def run_property(prop, cfg, tier, known, only=None):
                 pass
         except (Unsupported, KeyError, IndexError, AttributeError, ValueError, TypeError) as u:
             # the loop no longer has the shape the encoding knows: the native sweep decides whether that matters
+            failed.append(f"{unit}: not in the shape the encoding knows ({type(u).__name__}: {str(u)[:120]})")
+            sample["encoder_gap"] = f"{type(u).__name__}: {u}"
+        res["samples"].append(sample)
+        say(f"  [{unit:>22}] paths={sample.get('paths')} obligations={len(sample['queries'])}")
+
+        unit = "next_run"
+        sample = {"unit": unit, "what": "Next::run: one step of the middleware chain", "queries": []}
+        try:
+            fnN = one_fn(mir, r"^fn middleware::<impl at crux_http/src/middleware\.rs:[\d: ]+>::run\(_1: middleware::Next<'_>, _2: request::Request, _3: Client\)", "Next::run")
+            contracts = ContractsR(codes)
+            exN = ExecR(fnN, contracts, None, table)
+            exN.count_key = None
+            pathsN = exN.run_from(State({"_1": vagg([vopaque("MWS"), vopaque("ENDPOINT")], name="Next"), "_2": vopaque("REQ"), "_3": vopaque("CLIENT")}, []), "bb0")
+            sample.update({"mir_function": fnN.name, "paths": len(pathsN), "mir_steps": exN.steps})
+            for i, (pc, outcome, notes) in enumerate(pathsN):
+                cs = calls_of(notes)
+                seq = [c[0] for c in cs]
+                if isinstance(outcome, Panic):
+                    oblige(unit, f"path {i}: no panic", pc, "false", sample, {"calls": seq})
+                    continue
+                t = tok(outcome)
+                handles = [c for c in cs if c[0] == "handle"]
+                ends = [c for c in cs if c[0] == "endpoint"]
+                some_ok = (len(handles) == 1 and not ends and handles[0][1] == "deref(FIRST)" and handles[0][2] == "REQ" and handles[0][3] == "CLIENT"
+                           and handles[0][4] == "Next{REST,ENDPOINT}" and t == "HANDLEFUT")
+                none_ok = len(ends) == 1 and not handles and ends[0][1] == "ENDPOINT" and "REQ" in ends[0][2] and "CLIENT" in ends[0][2] and t == "ENDPOINTFUT"
+                oblige(unit, "a non-empty chain hands the request to its first middleware with the rest of the chain and does not touch the endpoint; an empty chain calls the endpoint once", pc,
+                       f"(and (=> (= nonempty 1) {'true' if some_ok else 'false'}) (=> (= nonempty 0) {'true' if none_ok else 'false'}))", sample, {"calls": seq, "outcome": t[:30], "handle": handles[:1]})
+        except (Unsupported, KeyError, IndexError, AttributeError, ValueError, TypeError) as u:
             failed.append(f"{unit}: not in the shape the encoding knows ({type(u).__name__}: {str(u)[:120]})")
             sample["encoder_gap"] = f"{type(u).__name__}: {u}"
         res["samples"].append(sample)
